@@ -42,7 +42,7 @@ def main():
         pass
     tmp = out_path + '.tmp'
     with open(tmp, 'w') as f:
-        json.dump(res, f)
+        json.dump(res, f, default=repr)
     os.replace(tmp, out_path)
 
 
